@@ -207,6 +207,7 @@ type Tok struct {
 	GapNs            int64  // sub: producer pause between values
 	InvokeT, ReturnT time.Duration
 	Gate             chan struct{} // if set, the handler blocks on it (released by the scenario)
+	ConsGate         chan struct{} // sub with a stalled consumer: it starts draining when this closes
 	IgnoreCtx        bool          // sub: the producer keeps sending after its context is cancelled
 
 	mu        sync.Mutex
